@@ -7,6 +7,9 @@
   handler.rs  -> Evenio/Generated/HandlerListGen.lean (the FUNCTIONS `HandlerList::{insert, remove}`, translated statement by
                                                       statement by the Rust -> Lean function translator `tools/rs2lean`;
                                                       `Evenio/Proofs/HandlerListGen.lean` proves them equal to the hand model)
+  slot_map.rs -> Evenio/Generated/SlotMapGen.lean     (`SlotMap::{insert_with, remove, get, get_by_index, next_key_iter}`,
+                                                      `NextKeyIter::next`, `Slot::is_vacant`, `Key::new`, same translator;
+                                                      `Evenio/Proofs/SlotMapGen.lean`)
 
 Each extraction either succeeds (file rewritten, status "extracted") or fails (the committed fallback copy
 `*.lean.fallback` is installed, status "failed: <why>").  Status is written as JSON to stdout / --status.
@@ -529,25 +532,53 @@ def rs2lean_binary():
     return RS2LEAN_BIN
 
 
-def extract_funcs():
-    """`HandlerList::{insert, remove}` of handler.rs as Lean functions over the hand model's `HandlerList ρ` / `Priority`."""
-    src = os.path.join(REPO, "src", "handler.rs")
+def run_rs2lean(rel, args, must_define):
+    """run the function translator on REPO/<rel>; -> the generated Lean text"""
+    src = os.path.join(REPO, rel)
     if not os.path.exists(src):
         raise ExtractError(f"{src} not found")
-    cmd = [rs2lean_binary(), src, "HandlerList", "insert", "remove",
-           "--namespace", "Evenio.Gen.HandlerList",
-           "--self-type", "Evenio.HandlerList ρ", "--tyvar", "ρ",
-           "--type", "HandlerInfoPtr=ρ", "--type", "HandlerPriority=Evenio.Priority",
-           "--label", "src/handler.rs"]
+    cmd = [rs2lean_binary(), src] + args + ["--label", rel]
     try:
         r = subprocess.run(cmd, capture_output=True, text=True, timeout=120)
     except subprocess.TimeoutExpired:
         raise ExtractError("rs2lean timed out")
     if r.returncode != 0:
         raise ExtractError(" ".join(r.stderr.split())[-400:] or f"rs2lean: exit code {r.returncode}")
-    if "def insert" not in r.stdout or "def remove" not in r.stdout:
-        raise ExtractError("rs2lean: output without `insert`/`remove`")
+    missing = [d for d in must_define if f"def {d} " not in r.stdout]
+    if missing:
+        raise ExtractError("rs2lean: output without " + "/".join(f"`{d}`" for d in missing))
     return r.stdout
+
+
+def extract_funcs():
+    """`HandlerList::{insert, remove}` of handler.rs as Lean functions over the hand model's `HandlerList ρ` / `Priority`."""
+    return run_rs2lean("src/handler.rs",
+                       ["HandlerList", "insert", "remove",
+                        "--namespace", "Evenio.Gen.HandlerList",
+                        "--self-type", "Evenio.HandlerList ρ", "--tyvar", "ρ",
+                        "--type", "HandlerInfoPtr=ρ", "--type", "HandlerPriority=Evenio.Priority"],
+                       ["insert", "remove"])
+
+
+def extract_slot_map():
+    """slot_map.rs: `SlotMap::{insert_with, remove, get, get_by_index, next_key_iter}`, `NextKeyIter::next`, `Slot::is_vacant`,
+    `Key::new` over the hand model's records `SlotMap α` / `Slot α` / `Key` (`Evenio/Proofs/SlotMapGen.lean` proves them equal
+    to the hand model).  Not translated, taken as given (listed in the generated header): the bit packing of `Key`
+    (`Key::new_unchecked` is the pair, `index()` / `generation()` its projections)."""
+    return run_rs2lean("src/slot_map.rs",
+                       ["SlotMap", "Slot::is_vacant", "Key::new", "insert_with", "remove", "get", "get_by_index",
+                        "next_key_iter", "NextKeyIter::next",
+                        "--namespace", "Evenio.Gen.SlotMap", "--tyvar", "α",
+                        "--type", "SlotMap=Evenio.SlotMap α", "--type", "Slot=Evenio.Slot α", "--type", "Key=Evenio.Key",
+                        "--type", "T=α", "--struct", "NextKeyIter",
+                        "--field", "SlotMap.next_free=nextFree", "--field", "Slot.generation=gen",
+                        "--field", "Slot.union.next_free=next", "--field", "Slot.union.value=val",
+                        "--inactive", "SlotUnion.next_free=4294967295", "--inactive", "SlotUnion.value=none",
+                        "--prim", "Key::new_unchecked(u32, u32) -> Key=Evenio.Key.mk",
+                        "--prim", "Key::index(self) -> u32=Evenio.Key.idx",
+                        "--prim", "Key::generation(self) -> NonZeroU32=Evenio.Key.gen"],
+                       ["Slot.is_vacant", "Key.new", "insert_with", "remove", "get", "get_by_index", "next_key_iter",
+                        "NextKeyIter.next"])
 
 
 def main():
@@ -557,7 +588,7 @@ def main():
     os.makedirs(OUT, exist_ok=True)
     status = {}
     for name, fn in [("AccessTables", extract_access), ("Gates", extract_gates), ("Sites", extract_sites),
-                     ("HandlerListGen", extract_funcs)]:
+                     ("HandlerListGen", extract_funcs), ("SlotMapGen", extract_slot_map)]:
         target = os.path.join(OUT, name + ".lean")
         fallback = os.path.join(OUT, name + ".lean.fallback")
         old = open(target).read() if os.path.exists(target) else None
